@@ -192,8 +192,8 @@ FollowReaches(cfg, req, o, f) ==
   o.t = "redir" => /\ f.t = "next" /\ f.pre = "nsid"
                    /\ Ident(f.ns, f.id, req.recs) = Ident(req.ns, req.id, req.recs)
                    /\ Norm(f.segs) = Norm(req.segs) /\ f.q = req.q
-Property(cfg, req, D) ==
-  LET o == Route(cfg, req, D)  f == Follow(cfg, req, o, D)
-  IN /\ IdentityPreserved(cfg, req, o) /\ RestPreserved(req, o) /\ LabelFits(o)
-     /\ InlinedForTLS(cfg, req, o) /\ FollowReaches(cfg, req, o, f)
+PropertyOf(cfg, req, o, f) ==
+  /\ IdentityPreserved(cfg, req, o) /\ RestPreserved(req, o) /\ LabelFits(o)
+  /\ InlinedForTLS(cfg, req, o) /\ FollowReaches(cfg, req, o, f)
+Property(cfg, req, D) == LET o == Route(cfg, req, D) IN PropertyOf(cfg, req, o, Follow(cfg, req, o, D))
 =============================================================================
